@@ -2,110 +2,16 @@ package ipfscluster
 
 import (
 	"context"
-	"strconv"
 
 	"github.com/ipfs/ipfs-cluster/allocator/ascendalloc"
 	"github.com/ipfs/ipfs-cluster/allocator/descendalloc"
 	"github.com/ipfs/ipfs-cluster/api"
 
-	cid "github.com/ipfs/go-cid"
 	peer "github.com/libp2p/go-libp2p-core/peer"
-	rpc "github.com/libp2p/go-libp2p-gorpc"
 )
 
 var vrfEntries = map[string]func(){
 	"VrfC03Allocate": VrfC03Allocate,
-}
-
-// ---- environment models (shared by the root-package harnesses)
-
-var vrfPeerNames = []peer.ID{"pA", "pB", "pC", "pD", "pE", "pF"}
-
-type vrfMetricState struct {
-	present bool   // the monitor holds a metric of this peer
-	healthy bool   // present, valid and unexpired at the (frozen) instant of the call
-	numeric bool   // value parses as an unsigned number
-	value   uint64 // the parsed value (meaningful iff numeric)
-	metric  *api.Metric
-}
-
-// vrfMonitor implements PeerMonitor. Contract modelled (checked for the real
-// monitor by C09): LatestMetrics returns the metrics that are valid and
-// unexpired at the time of the call, at most one per peer.
-type vrfMonitor struct {
-	states []vrfMetricState
-	name   string
-}
-
-func (m *vrfMonitor) SetClient(*rpc.Client)                            {}
-func (m *vrfMonitor) Shutdown(context.Context) error                   { return nil }
-func (m *vrfMonitor) LogMetric(context.Context, *api.Metric) error     { return nil }
-func (m *vrfMonitor) PublishMetric(context.Context, *api.Metric) error { return nil }
-func (m *vrfMonitor) MetricNames(context.Context) []string             { return []string{m.name} }
-func (m *vrfMonitor) Alerts() <-chan *api.Alert                        { return nil }
-func (m *vrfMonitor) LatestMetrics(ctx context.Context, name string) []*api.Metric {
-	var out []*api.Metric
-	for i := range m.states {
-		s := &m.states[i]
-		if s.present && !s.metric.Discard() {
-			out = append(out, s.metric)
-		}
-	}
-	return out
-}
-
-type vrfInformer struct{ name string }
-
-func (i *vrfInformer) SetClient(*rpc.Client)                 {}
-func (i *vrfInformer) Shutdown(context.Context) error        { return nil }
-func (i *vrfInformer) Name() string                          { return i.name }
-func (i *vrfInformer) GetMetric(context.Context) *api.Metric { return nil }
-
-const vrfSecond = int64(1000000000)
-
-// vrfSymbolicMonitor builds a monitor with one symbolic metric state per peer.
-// Nothing forks here: the code under test decides where the state matters.
-func vrfSymbolicMonitor(n int, name string) *vrfMonitor {
-	mon := &vrfMonitor{name: name}
-	now := vrf_now()
-	for i := 0; i < n; i++ {
-		st := vrfMetricState{}
-		st.present = vrf_nondet_bool("present")
-		valid := vrf_nondet_bool("valid")
-		delta := vrf_nondet_int64("expire_minus_now")
-		// expiry instants closer than one second to "now" are outside the
-		// claim (the wall clock moves between harness and code under test)
-		vrf_assume(vrf_or(delta <= -vrfSecond, delta >= vrfSecond))
-		vrf_assume(vrf_and(delta > -vrfSecond*1000000, delta < vrfSecond*1000000))
-		st.numeric = vrf_nondet_bool("numeric")
-		st.value = vrf_nondet_uint64("value")
-		val := vrf_ite_str(st.numeric, strconv.FormatUint(st.value, 10), "not-a-number")
-		exp := now + delta
-		st.metric = &api.Metric{Name: name, Peer: vrfPeerNames[i], Value: val, Valid: valid, Expire: exp}
-		// unexpired = the expiry instant is not before "now"
-		st.healthy = vrf_and(st.present, vrf_and(valid, !(now > exp)))
-		mon.states = append(mon.states, st)
-	}
-	return mon
-}
-
-func vrfCid(i int) cid.Cid {
-	cids := []string{
-		"QmUaFyXjZUNaUwYF8rBtbJc7fEJ46aJXvgV8z2HHs6jvmJ",
-		"QmbrCtydGyPeHiLURSPMqrvE5mCgMCwFYq3UD4XLCeAYw6",
-		"QmZHKZDavkvNfA9gSAg7HALv8jF7BJaKjUc9U2LSuvUySB",
-	}
-	c, _ := cid.Decode(cids[i])
-	return c
-}
-
-func vrfIndexOf(list []peer.ID, p peer.ID) int {
-	for i, x := range list {
-		if x == p {
-			return i
-		}
-	}
-	return -1
 }
 
 // ---- C03: allocate()
